@@ -120,6 +120,46 @@ int main(void)
                 free(s); ncases++;
             }
 #endif
+#ifdef HAVE_copy_string
+    /* payload lengths 0..4 (NULL address for the empty one, as ShroudStrToArray builds it), destination lengths 0..4,
+       exact-fit heap buffers on both sides: the capsule is released exactly once on every path */
+    for (int el = 0; el <= 4; el++)
+        for (int cl = 0; cl <= 4; cl++) {
+            LIB_SHROUD_array data; memset(&data, 0, sizeof data);
+            char *src = el ? (char *) malloc(el) : NULL;
+            for (int i = 0; i < el; i++) src[i] = (char) ('a' + i);
+            char *dst = (char *) malloc(cl ? cl : 1);
+            memset(dst, '#', cl ? cl : 1);
+            data.addr.ccharp = src; data.elem_len = el; data.size = 1;
+            n_released = 0; last_released = NULL;
+            LIB_ShroudCopyStringAndFree(&data, dst, cl);
+            if (n_released != 1) fail("copy_string", "capsule released this many times (must be exactly once)", el, cl, n_released);
+            if (last_released != (void *) &data.cxx) fail("copy_string", "released something other than the capsule of the descriptor", el, cl, 0);
+            int m = el < cl ? el : cl;
+            if (m && memcmp(dst, src, m) != 0) fail("copy_string", "copied bytes differ", el, cl, m);
+            for (int i = m; i < cl; i++) if (dst[i] != '#' && dst[i] != 0) fail("copy_string", "byte beyond the copy changed", el, cl, i);
+            free(dst); free(src); ncases++;
+        }
+#endif
+#ifdef HAVE_copy_array
+    for (int sz = 0; sz <= 3; sz++)
+        for (int cs = 0; cs <= 3; cs++)
+            for (int el = 1; el <= 8; el *= 2) {
+                LIB_SHROUD_array data; memset(&data, 0, sizeof data);
+                char *src = sz ? (char *) malloc(sz * el) : NULL;      /* empty std::vector: NULL base, size 0 */
+                for (int i = 0; i < sz * el; i++) src[i] = (char) (i + 1);
+                char *dst = (char *) malloc(cs * el ? cs * el : 1);
+                memset(dst, '#', cs * el ? cs * el : 1);
+                data.addr.base = src; data.elem_len = el; data.size = sz;
+                n_released = 0; last_released = NULL;
+                LIB_ShroudCopyArray(&data, dst, cs);
+                if (n_released != 1) fail("copy_array", "capsule released this many times (must be exactly once)", sz, cs, n_released);
+                int m = (sz < cs ? sz : cs) * el;
+                if (m && memcmp(dst, src, m) != 0) fail("copy_array", "copied bytes differ", sz, cs, el);
+                for (int i = m; i < cs * el; i++) if (dst[i] != '#') fail("copy_array", "byte beyond the copy changed", sz, cs, i);
+                free(dst); free(src); ncases++;
+            }
+#endif
     printf("OK %ld\n", ncases);
     return 0;
 }
